@@ -476,7 +476,8 @@ def _run_harness_forked(args, solo):
     name, specs, bound, opcode, tier = args
     part = par.Part()
     mk = _ops_factory(specs)
-    for ch, results, steps, pre, log in sched.explore_forked(mk, bound, opcode, readback=True):
+    pll = 4 if any(isinstance(sp, dict) and sp.get("op") == "numeric" for sp in specs) else None
+    for ch, results, steps, pre, log in sched.explore_forked(mk, bound, opcode, readback=True, per_line_limit=pll):
         results, after = results
         part.count((name, "forked", ch.answers), nontrivial=pre > 0)
         part.stat("scheduling_steps_executed", sum(steps))
@@ -612,6 +613,79 @@ def cold_specs():
     }
 
 
+def canaries():
+    """What a schedule leaves behind for LATER callers of OTHER code paths: after the threads have
+    finished, every implemented Bundesbank method judges two digit-rich base accounts and their
+    single-digit neighbours in the last five positions, and a few IBANs / BICs / lookups are run - in the same process."""
+    out = []
+    for m in c07.lib_methods():
+        alg = lib.checksum.algorithms["DE:" + m]
+        bits = []
+        rich = [b for b in c07.bases_for(m) if len(set(b)) > 3][:2] or c07.bases_for(m)[:1]
+        accts = [a for b in rich for a in c07.deviations(b, 1) if a[:5] == b[:5]]  # last five positions varied
+        for a in accts:
+            k, v = lib.outcome(alg.validate, [a], "")
+            bits.append("1" if (k, v) == ("ok", True) else "0" if k in ("ok", "lib") else "E")
+        out.append((m, "".join(bits)))
+    for f in (lambda: lib.iban_parse("DE89370400440532013000", True), lambda: lib.iban_parse("BE68539007547034", True),
+              lambda: lib.bic_parse("GENODEM1GLS"), lambda: lib.outcome(lambda: str(lib.BIC.from_bank_code("DE", "43060967"))),
+              lambda: lib.outcome(lambda: str(lib.IBAN.generate("ES", "2100", "0200051332", "0418")))):
+        out.append(f())
+    return out
+
+
+def cold_method_pairs():
+    """(name, spec, spec) per implemented method: two different accounts of the method, both being
+    the first calls of their process."""
+    out = []
+    for m in c07.lib_methods():
+        accts = list(dict.fromkeys(c07.bases_for(m)))[:2]
+        if len(accts) == 2:
+            out.append((f"cold-method:{m}", {"op": "method", "m": m, "account": accts[0]},
+                        {"op": "method", "m": m, "account": accts[1]}))
+    return out
+
+
+def run_cold_method_harness(args):
+    _, name, sa, sb, bound, tier = args
+    part = par.Part()
+    specs = [sa, sb]
+    solo = [par.in_child(_solo, s) for s in specs]
+    want_canaries = par.in_child(canaries)
+    cold = sched.explore_cold(specs, make_op, bound, after=canaries)
+    while True:
+        try:
+            ch, (results, after), steps, pre, log = next(cold)
+        except StopIteration:
+            break
+        except report.HarnessError as e:
+            if "Hang" not in str(e):
+                raise
+            part.violation("cold-start:threads-hang", {"kind": "c14hang", "harness": name, "ops": specs,
+                                                       "opcode": False}, solo, str(e)[:300])
+            break
+        part.count((name, ch.answers), nontrivial=pre > 0)
+        part.stat("scheduling_steps_executed", sum(steps))
+        if results != solo:
+            wrong = [i for i, (x, y) in enumerate(zip(results, solo)) if x != y]
+            part.violation("cold-start:thread-result-differs-from-solo",
+                           {"kind": "c14cold", "harness": name, "ops": specs, "answers": list(ch.answers),
+                            "switches": log, "wrong_threads": wrong}, solo, results)
+        elif after != want_canaries:
+            diff = [(a, b) for a, b in zip(after, want_canaries) if a != b][:2]
+            part.violation("cold-start:later-calls-of-other-code-paths-get-different-answers",
+                           {"kind": "c14coldcanary", "harness": name, "ops": specs, "answers": list(ch.answers),
+                            "switches": log}, [d[1] for d in diff], [d[0] for d in diff])
+    part.stat("harnesses")
+    part.stat("cold_start_harnesses")
+    part.stat("cold_start_harnesses_with_canaries")
+    part.stat(f"bound_{bound}_line_harnesses")
+    if name.endswith(":00"):
+        part.sample({"harness": name, "ops": specs, "preemption_bound": bound, "cold_start": True,
+                     "afterwards": "all methods x ~90 accounts, 5 other calls"})
+    return part.done()
+
+
 def run_cold_harness(args):
     """Both operations are the FIRST library calls of their process: every execution (and every solo
     run) starts in its own fork of the pristine post-import process."""
@@ -656,6 +730,8 @@ def _solo(spec):
 
 
 def shard(args):
+    if args[0] == "coldm":
+        return run_cold_method_harness(args)
     return run_cold_harness(args) if args[0] == "cold" else run_harness(args)
 
 
@@ -668,7 +744,8 @@ def _replay_forked_child(case):
     lib.BIC("GENODEM1GLS").country
     solo = [op() for op in mk()]
     sched.warm_up(mk(), opcode)
-    res = [par.in_child(sched._cold_exec_ops, mk, tuple(case["answers"]), None, opcode, None, True)[2]
+    pll = 4 if any(isinstance(sp, dict) and sp.get("op") == "numeric" for sp in case["ops"]) else None
+    res = [par.in_child(sched._cold_exec_ops, mk, tuple(case["answers"]), None, opcode, pll, True)[2]
            for _ in range(2)]
     return solo, res
 
@@ -690,6 +767,14 @@ def replay(case: dict) -> dict:
         except sched.Hang as e:
             return {"ok": False, "observed": str(e)}
         return {"ok": True}
+    if case["kind"] == "c14coldcanary":
+        specs = case["ops"]
+        want = par.in_child(canaries)
+        res = [par.in_child(sched._cold_exec, specs, make_op, tuple(case["answers"]), None, False, canaries)[2]
+               for _ in range(2)]
+        if res[0] != res[1]:
+            raise report.HarnessError(f"cold schedule replay is not deterministic: {str(res)[:300]}")
+        return {"ok": res[0][1] == want, "observed": [(a, b) for a, b in zip(res[0][1], want) if a != b][:2]}
     if case["kind"] == "c14cold":
         specs = case["ops"]
         solo = [par.in_child(_solo, s) for s in specs]
@@ -723,10 +808,12 @@ def main(tier: str) -> int:
     hs = par.in_child(build_harnesses, tier)
     hs.sort(key=lambda h: -(h[2] * 10 + (5 if h[3] else 0) + len(h[1])))
     cold = [("cold", a, b, 1 if tier == "quick" else 2, tier) for a, b in COLD_PAIRS]
-    par.run_shards(run, shard, cold + [h + (tier,) for h in hs])
+    coldm = [("coldm", n, sa, sb, 1 if tier == "quick" else 2, tier) for n, sa, sb in par.in_child(cold_method_pairs)]
+    par.run_shards(run, shard, cold + coldm + [h + (tier,) for h in hs])
     bounds = {}
     for name, specs, bound, opcode in hs + [(f"cold:{a}x{b}", [0, 0], c[3], False) for c in cold
-                                            for a, b in [(c[1], c[2])]]:
+                                            for a, b in [(c[1], c[2])]] + [
+                                               (f"cold:{c[1]}", [0, 0], c[4], False) for c in coldm]:
         nthreads = len(specs[0]["methods"]) if (specs and isinstance(specs[0], dict) and specs[0].get("op") == "shared") else len(specs)
         key = ("cold start, " if name.startswith("cold:") else "shared object, " if name.startswith("shared:") else "") + f"{nthreads} threads, <= {bound} preemptions, {gran(opcode)} granularity"
         bounds[key] = bounds.get(key, 0) + 1
@@ -734,7 +821,7 @@ def main(tier: str) -> int:
         "states": int(run.stats.get("distinct_switch_points", 0)),
         "transitions": int(run.stats.get("scheduling_steps_executed", 0)),
         "schedules_executed": int(run.evaluations),
-        "harnesses": len(hs) + len(cold), "cold_start_harnesses": len(cold),
+        "harnesses": len(hs) + len(cold) + len(coldm), "cold_start_harnesses": len(cold) + len(coldm),
         "bounds": bounds,
         "states_note": "states = distinct (harness, thread, step index, next thread) switch points "
                        "exercised; transitions = scheduling steps executed over all schedules",
